@@ -102,13 +102,31 @@ pub fn to_lossy_bytes(input: &str) -> Cow<[u8]> {
     // a succulent buffer for reuse, we'll zero it before each use.
     // all utf-8 characters are no longer than 4 bytes.
     let mut buf = [0; 4];
+    // was the previous character an unescaped control character?
+    let mut after_control = false;
 
     'outer: for c in input.chars() {
         // all codepages share ascii values
         if c.is_ascii() {
             output.push(c as u8);
+
+            // A marker that is already part of the text (i.e. ^8, which doubles as a colour)
+            // switches the codepage for whoever decodes it. Follow it, so that the characters
+            // after it are not emitted in a codepage the decoder has already left.
+            if after_control && c.is_lfs_codepage() {
+                current_control = if c.propagate_lfs_codepage() {
+                    DEFAULT_CODEPAGE
+                } else {
+                    c
+                };
+                current_encoding = current_control
+                    .as_lfs_codepage()
+                    .unwrap_or_else(|| unreachable!());
+            }
+            after_control = !after_control && c.is_lfs_control_char();
             continue;
         }
+        after_control = false;
 
         buf.fill(0);
         let char_as_bytes = c.encode_utf8(&mut buf);
